@@ -491,3 +491,17 @@ func convPoints(r *xs.Result, ds []uint64) {
 		}
 	}
 }
+
+// PowNonce returns a nonce that the reference accepts for (address, previous hash, difficulty): the hint when it is
+// valid (checked, never trusted), otherwise the least valid nonce found by the deterministic reference search.
+func PowNonce(addr types.Address, prev types.Hash, difficulty uint64, hint uint64) (nonce uint64, searched uint64) {
+	dh := refDataHash(addr, prev)
+	if refValid(difficulty, refWork(hint, &dh)) {
+		return hint, 0
+	}
+	n, ok, tries := refSearch(difficulty, &dh, 1<<36)
+	if !ok {
+		panic("harness: reference PoW search failed")
+	}
+	return n, tries
+}
